@@ -112,6 +112,8 @@ def linear_case(rng, res):
 
     fi, fo = rng.randint(1, 6), rng.randint(1, 6)
     lead = [rng.randint(1, 4) for _ in range(rng.choice([1, 1, 2, 3]))]
+    if rng.random() < 0.06:
+        lead[0] = rng.choice([129, 200, 257, 300])
     bias = rng.random() < 0.5
     case = dict(kind='linear', fin=fi, fout=fo, lead=lead, bias=bias)
     g = torch.Generator().manual_seed(rng.randrange(2 ** 31))
@@ -153,7 +155,8 @@ def random_geo(rng):
     ph, pw = rng.randint(0, 2), rng.randint(0, 2)
     H = rng.randint(max(kh - 2 * ph, 1), 9)
     W = rng.randint(max(kw - 2 * pw, 1), 9)
-    return (ci, co, kh, kw, sh, sw, ph, pw, H, W, rng.randint(1, 4), rng.random() < 0.5)
+    batch = rng.choice([129, 130, 200, 257, 300, 513]) if rng.random() < 0.06 else rng.randint(1, 4)   # 'all batch sizes': a few large, odd ones
+    return (ci, co, kh, kw, sh, sw, ph, pw, H, W, batch, rng.random() < 0.5)
 
 
 def grid():
